@@ -3,6 +3,7 @@
 Used by C20 (no error from below is discarded), C11/C17 (which error kinds are tolerated) and C12.
 """
 from .terms import get_tracer, short, strip, alts, call_of, fmt, walk, TRY_BRANCH, FROM_RESIDUAL
+from collections import defaultdict
 from .dataflow import ReachingDefs, local_uses
 from .cfg import CFG
 
@@ -314,6 +315,86 @@ class ResultFlow:
             for o in ops:
                 if o.kind == "fn" and short(o.fn["path"]) in DISCARDING and short(o.fn["path"]).startswith("Result::"):
                     out.append((b.idx, short(o.fn["path"]), b.term.line))
+        return out
+
+    def overwritten_results(self):
+        """Result locals (tracked error types) that can be assigned again while they may still hold an unexamined Err:
+        `outcome = step(); if outcome.is_ok() { n += 1 }` inside a loop, reported after it.  A definition is reported when a
+        path leads from it to a (re)definition of the same local that passes neither a consuming use (the value moved into a
+        `?`, a `match`, a return, a call) nor an edge on which the value is known to be Ok."""
+        out = []
+        body, cfg = self.body, self.cfg
+        for l in range(body.arg_count + 1, len(body.locals)):
+            ty = body.local_ty(l)
+            if not (is_result_ty(ty) and tracked_err(ty)):
+                continue
+            defs = [(k, bb, idx) for k, bb, idx in self.tr.defs.get(l, []) if not body.blocks[bb].cleanup]
+            if len(defs) < 1:
+                continue
+            def_blocks = {bb for _, bb, _ in defs}
+            # consuming uses: the whole value moved / copied somewhere, or its variant / payload read directly
+            consume = defaultdict(list)
+            refs = {}
+            for (bb, idx, how) in self.uses.get(l, []):
+                if how in ("move", "copy", "place"):
+                    consume[bb].append(idx)
+            # `_r = &l` temporaries, and the blocks that call is_ok / is_err on them
+            for b in body.blocks:
+                if b.cleanup:
+                    continue
+                for st in b.stmts:
+                    if st.kind == "assign" and st.rv.kind == "ref" and st.rv.place is not None and st.rv.place.is_local() and \
+                            st.rv.place.local == l and st.lhs.is_local():
+                        refs[st.lhs.local] = True
+            ok_edges = set()    # (src block, dst block) on which l is known to be Ok
+            for b in body.calls():
+                t = b.term
+                sh = short(t.callee() or "")
+                if sh in ("Result::is_ok", "Result::is_err") and t.args and t.args[0].kind in ("move", "copy") and \
+                        t.args[0].place.is_local() and t.args[0].place.local in refs and t.dest is not None and t.dest.is_local() and \
+                        t.target is not None:
+                    nb = body.blocks[t.target]
+                    if nb.term.kind == "switch" and nb.term.discr is not None and nb.term.discr.place is not None and \
+                            nb.term.discr.place.is_local() and nb.term.discr.place.local == t.dest.local:
+                        for v, d in nb.term.targets:
+                            truth = bool(int(v))
+                            if (sh == "Result::is_ok" and truth) or (sh == "Result::is_err" and not truth):
+                                ok_edges.add((nb.idx, d))
+                        if nb.term.otherwise is not None:
+                            vals = {int(v) for v, _ in nb.term.targets}
+                            truth = 0 in vals       # otherwise of a bool switch on 0 means true
+                            if (sh == "Result::is_ok" and truth) or (sh == "Result::is_err" and not truth):
+                                ok_edges.add((nb.idx, nb.term.otherwise))
+            for kind, bb, idx in defs:
+                # is the value consumed later in the defining block itself?
+                if kind == "assign" and any((i == "term" or (isinstance(i, int) and i > idx)) for i in consume.get(bb, [])):
+                    continue
+                seen, st, hit = set(), [], None
+                for (s_, d_, _lab) in cfg.edges:
+                    if s_ == bb and (s_, d_) not in ok_edges:
+                        st.append(d_)
+                while st and hit is None:
+                    x = st.pop()
+                    if x in seen:
+                        continue
+                    seen.add(x)
+                    if x in def_blocks:
+                        # a redefinition: reached with the old value unexamined unless this block consumes it before assigning
+                        first_def = min((i if k == "assign" else 10 ** 6) for k, b2, i in defs if b2 == x)
+                        if not any(isinstance(i, int) and i < first_def for i in consume.get(x, [])) and \
+                                not (first_def == 10 ** 6 and "term" in consume.get(x, [])):
+                            hit = x
+                            break
+                        continue
+                    if consume.get(x):
+                        continue
+                    for (s_, d_, _lab) in cfg.edges:
+                        if s_ == x and (s_, d_) not in ok_edges:
+                            st.append(d_)
+                if hit is not None:
+                    line = body.blocks[bb].stmts[idx].line if kind == "assign" else body.blocks[bb].term.line
+                    name = body.name_of_local(l)
+                    out.append((bb, name or "<temporary>", line))
         return out
 
     def unused_results(self):
